@@ -339,20 +339,28 @@ class CFG:
         start: t.Optional[int] = None,
         max_paths: int = 20000,
         loop_bound: int = 2,
-    ) -> t.Iterator[t.Tuple[t.List[int], int, t.Dict[int, bool]]]:
+        key: t.Optional[t.Callable[[Node], t.Any]] = None,
+        sticky: bool = True,
+    ) -> t.Iterator[t.Tuple[t.List[int], int, t.Dict[t.Any, bool]]]:
         """Enumerate paths from start to an exit.  `decide` may fix the outcome of a
-        condition node (True/False) or return None to fork.  Every node may be visited at
-        most `loop_bound` times per path.  Yields (node ids, exit id, decisions)."""
+        condition node (True/False) or return None to fork.  With `sticky`, a condition keeps
+        its first outcome along a path; conditions with the same `key` (default: node id; pass
+        the normalised text to treat equal atoms alike) share that outcome.  Every node may be
+        visited at most `loop_bound` times per path.  Yields (node ids, exit id, decisions);
+        the labels of the edges taken are in `self.last_labels` semantics: path[i] -> path[i+1]
+        took label labels[i], available as the 4th element when `with_labels` is used."""
         start = self.entry if start is None else start
+        key = key or (lambda n: n.id)
         count = 0
-        stack: t.List[t.Tuple[int, t.List[int], t.Dict[int, int], t.Dict[int, bool]]] = [(start, [], {}, {})]
+        stack: t.List[t.Tuple[int, t.List[int], t.List[t.Any], t.Dict[int, int], t.Dict[t.Any, bool]]] = [(start, [], [], {}, {})]
         while stack:
-            nid, path, visits, decisions = stack.pop()
+            nid, path, labels, visits, decisions = stack.pop()
             path = path + [nid]
             if nid in (self.ret, self.exc):
                 count += 1
                 if count > max_paths:
                     raise AnalysisError(f"more than {max_paths} paths in {self.fn.name}")
+                self.path_labels = labels
                 yield path, nid, decisions
                 continue
             v = visits.get(nid, 0)
@@ -363,23 +371,24 @@ class CFG:
             node = self.nodes[nid]
             succs = self.succ[nid]
             if node.kind == "cond":
-                d = decisions.get(nid)
+                k = key(node)
+                d = decisions.get(k) if sticky else None
                 if d is None:
                     d = decide(node)
                 if d is not None:
-                    succs = [(y, lab) for y, lab in succs if lab == d]
                     for y, lab in succs:
-                        stack.append((y, path, visits, decisions))
+                        if lab == d:
+                            stack.append((y, path, labels + [lab], visits, decisions))
                     continue
                 for y, lab in succs:
                     dd = dict(decisions)
-                    dd[nid] = bool(lab)
-                    stack.append((y, path, visits, dd))
+                    dd[k] = bool(lab)
+                    stack.append((y, path, labels + [lab], visits, dd))
                 continue
             for y, lab in succs:
                 if lab == "exc":
                     continue  # exceptional edges are not followed by path enumeration
-                stack.append((y, path, visits, decisions))
+                stack.append((y, path, labels + [lab], visits, decisions))
 
 
 def build(fn: FuncNode) -> CFG:
